@@ -212,7 +212,9 @@ func c17numbers(c *Ctx) {
 				continue
 			}
 			isJSONNumber := func(s *px.Sym) bool {
-				s = s.Strip(false)
+				for s != nil && s.Kind == px.KMkIface {
+					s = s.X
+				}
 				return s != nil && s.Typ != nil && types.TypeString(s.Typ, nil) == "encoding/json.Number"
 			}
 			switch {
